@@ -323,6 +323,13 @@ Definition hostname_change (original : bytes) : res bytes :=
     end in
   Ok (new_name ++ rest).
 
+(* n successive renames (a name can lose several conflicts in a row) *)
+Fixpoint iter_rename (f : bytes -> res bytes) (n : nat) (s : bytes) : res bytes :=
+  match n with
+  | O => Ok s
+  | S k => let? r := f s in iter_rename f k r
+  end.
+
 (* ---- names taken from the wire ----------------------------------------------------------- *)
 
 (* DnsIncoming::read_name presents the labels it read as dotted text WITHOUT escaping:
